@@ -61,24 +61,32 @@ class Execution:
         order = [tid] + others
         self._choose(tid, loc, order, False)
 
-    def block(self, tid, lock):
-        """the running thread cannot take `lock`: hand the baton to another enabled thread (forced, free)"""
+    def block(self, tid, lock, can_timeout=False):
+        """the running thread cannot take `lock`: hand the baton to another enabled thread (forced, free).
+        can_timeout: the wait is a TIMED one - the timer firing before the lock is released is one more answer of the
+        environment (the last alternative of this point); returns "timeout" then, and the thread keeps running."""
         if self.deadlock:
             raise Deadlock("deadlock")
         self.blocked[tid] = lock
         others = [t for t in range(self.n) if not self.done[t] and t != tid and self.blocked[t] is None]
-        if not others:
+        if not others and not can_timeout:
             self._deadlock()
             raise Deadlock(f"thread {tid} waits for a lock that no runnable thread can release")
         i = len(self.points)
         c = 0
+        nopt = len(others) + (1 if can_timeout else 0)
         if i < len(self.prefix):
             c = self.prefix[i]
-            if c >= len(others):
-                self.fault = f"divergence: prefix choice {c} at blocking point {i} but only {len(others)} enabled"
+            if c >= nopt:
+                self.fault = f"divergence: prefix choice {c} at blocking point {i} but only {nopt} enabled"
                 c = 0
+        if c >= len(others):  # the timer fires
+            self.blocked[tid] = None
+            self.points.append((tid, "timed-wait-expires", nopt, c, True, tid))
+            self.clock += 1
+            return "timeout"
         target = others[c]
-        self.points.append((tid, "blocked", len(others), c, True, target))
+        self.points.append((tid, "blocked", nopt, c, True, target))
         self.clock += 1
         self.current = target
         self.sems[target].release()
@@ -237,7 +245,11 @@ class SchedLock:
                 return True
             if not blocking:
                 return False
-            ex.block(tid, self)
+            if timeout is not None and timeout >= 0:
+                if ex.block(tid, self, can_timeout=True) == "timeout":
+                    return False
+            else:
+                ex.block(tid, self)
 
     def release(self):
         if self._reentrant and self._count > 1:
